@@ -107,7 +107,12 @@ func gen(t *rapid.T) Script {
 		case !connected[c] && rapid.IntRange(0, 5).Draw(t, "scanner") == 0:
 			// a connection that sends a ClientHello (this client's alternative one) and goes away before the
 			// handshake is over: whatever the proxy captured from it must die with it
-			s.Steps = append(s.Steps, Step{Op: "scanner", Client: c})
+			op := "scanner"
+			if rapid.IntRange(0, 2).Draw(t, "staller") == 0 {
+				// ... or stays, silent, until the proxy's handshake timeout cuts it
+				op = "staller"
+			}
+			s.Steps = append(s.Steps, Step{Op: op, Client: c})
 		case !connected[c]:
 			s.Steps = append(s.Steps, Step{Op: "connect", Client: c})
 			connected[c] = true
@@ -152,6 +157,7 @@ func exec(t *testing.T, s Script) *vstat.Violation {
 	overlap := false
 	sameAddr := false
 	scanners := 0
+	stallers := 0
 	protos := map[string]bool{}
 	msg := rig.Bubble(t, func() {
 		p := rig.StartProxy(rig.ProxyOpts{IdleTimeout: 10 * time.Minute, TLSHandshakeTimeout: 10 * time.Second})
@@ -236,13 +242,18 @@ func exec(t *testing.T, s Script) *vstat.Violation {
 				} else {
 					cs.h1 = rig.NewH1(c.Conn)
 				}
-			case "scanner":
+			case "scanner", "staller":
 				raw, _, err := p.Ln.Dial(rig.DialOpts{Remote: &net.TCPAddr{IP: net.ParseIP(cl.PeerIP), Port: 29000 + st.Client}})
 				if err != nil {
 					return
 				}
 				raw.Write(cl.AltSpec.Render().Record())
-				if !s.Free {
+				if st.Op == "staller" {
+					time.Sleep(11 * time.Second) // beyond the handshake timeout of 10 s
+					mu.Lock()
+					stallers++
+					mu.Unlock()
+				} else if !s.Free {
 					rig.Wait() // the proxy has read the hello and answered
 				}
 				raw.Close()
@@ -437,10 +448,13 @@ func exec(t *testing.T, s Script) *vstat.Violation {
 		cl = append(cl, "reconnect-from-the-same-ip:port")
 	}
 	if s.SyncConnect {
-		cl = append(cl, "handshakes-complete-at-the-same-instant", "hello-then-gone-before-the-handshake-ends")
+		cl = append(cl, "handshakes-complete-at-the-same-instant", "hello-then-gone-before-the-handshake-ends", "hello-then-silent-until-the-handshake-timeout")
 	}
 	if scanners > 0 {
 		cl = append(cl, "hello-then-gone-before-the-handshake-ends")
+	}
+	if stallers > 0 {
+		cl = append(cl, "hello-then-silent-until-the-handshake-timeout")
 	}
 	nt := overlap && protos["h2"] && (protos["http/1.1"] || protos[""])
 	col.Case(fmt.Sprintf("%+v", s), nt, map[string]any{"clients": len(s.Clients), "steps": len(s.Steps), "free": s.Free, "requests": len(reqs), "classes": cl}, cl...)
